@@ -38,34 +38,45 @@ impl Ty {
 
     /// Rust source text. `static_refs`: spell references `&'static T` (struct fields, returns).
     pub fn rust(&self, static_refs: bool) -> String {
+        self.rust_with(static_refs, false)
+    }
+
+    /// Rust source text; with `qualify` every type constructor and every named type is written with
+    /// its path (`std::collections::HashMap<..>`, `std::option::Option<..>`, `crate::Item`), which
+    /// is the same type spelled without a `use`
+    pub fn rust_with(&self, static_refs: bool, qualify: bool) -> String {
+        let q = |short: &str, path: &str| if qualify { format!("{}::{}", path, short) } else { short.to_string() };
+        let r = |t: &Ty| t.rust_with(static_refs, qualify);
         match self {
             Ty::Prim(p) => {
                 if *p == "&str" && static_refs {
                     "&'static str".to_string()
+                } else if *p == "String" {
+                    q("String", "std::string")
                 } else {
                     p.to_string()
                 }
             }
-            Ty::Named(n) => n.clone(),
-            Ty::Option(i) => format!("Option<{}>", i.rust(static_refs)),
-            Ty::Vec(i) => format!("Vec<{}>", i.rust(static_refs)),
-            Ty::HashSet(i) => format!("HashSet<{}>", i.rust(static_refs)),
-            Ty::BTreeSet(i) => format!("BTreeSet<{}>", i.rust(static_refs)),
-            Ty::HashMap(k, v) => format!("HashMap<{}, {}>", k.rust(static_refs), v.rust(static_refs)),
-            Ty::BTreeMap(k, v) => format!("BTreeMap<{}, {}>", k.rust(static_refs), v.rust(static_refs)),
+            Ty::Named(n) => q(n, "crate"),
+            Ty::Option(i) => format!("{}<{}>", q("Option", "std::option"), r(i)),
+            Ty::Vec(i) => format!("{}<{}>", q("Vec", "std::vec"), r(i)),
+            Ty::HashSet(i) => format!("{}<{}>", q("HashSet", "std::collections"), r(i)),
+            Ty::BTreeSet(i) => format!("{}<{}>", q("BTreeSet", "std::collections"), r(i)),
+            Ty::HashMap(k, v) => format!("{}<{}, {}>", q("HashMap", "std::collections"), r(k), r(v)),
+            Ty::BTreeMap(k, v) => format!("{}<{}, {}>", q("BTreeMap", "std::collections"), r(k), r(v)),
             Ty::Tuple(v) => {
-                let parts: Vec<String> = v.iter().map(|t| t.rust(static_refs)).collect();
+                let parts: Vec<String> = v.iter().map(r).collect();
                 format!("({})", parts.join(", "))
             }
             Ty::Ref(i) => {
                 if static_refs {
-                    format!("&'static {}", i.rust(static_refs))
+                    format!("&'static {}", r(i))
                 } else {
-                    format!("&{}", i.rust(static_refs))
+                    format!("&{}", r(i))
                 }
             }
-            Ty::Result(t, Some(e)) => format!("Result<{}, {}>", t.rust(static_refs), e.rust(static_refs)),
-            Ty::Result(t, None) => format!("Result<{}>", t.rust(static_refs)),
+            Ty::Result(t, Some(e)) => format!("{}<{}, {}>", q("Result", "std::result"), r(t), r(e)),
+            Ty::Result(t, None) => format!("Result<{}>", r(t)),
         }
     }
 
